@@ -518,6 +518,19 @@ def symBinop (s : String) : Option BinOp :=
 
 def symCond (s : String) : Option Cond := Cond.all.find? (fun c => c.symbol = s)
 
+/-- the look-ahead of `parse_assignment` for an operator spelled as a word:
+    `(at_keyword("rol") or at_keyword("ror")) and peek_second() == "ID"`; fetching the second token raises at a
+    lex fault -/
+inductive WordAhead | yes | no | fault
+
+def wordAhead (r : Toks) : WordAhead :=
+  if atKeyword "rol" r || atKeyword "ror" r then
+    match r with
+    | _ :: .id _ :: _ => .yes
+    | _ :: .fault :: _ => .fault
+    | _ => .no
+  else .no
+
 /-- `parse_assignment()` up to (not including) `define_value` and the `;`: the raw instruction -/
 def parseAssignment (fparse : String → Option Nat) (fuel : Nat) (ts : Toks) : Except RErr (Instr × Toks) := do
   let (ty, r) ← parseType ts
@@ -532,6 +545,13 @@ def parseAssignment (fparse : String → Option Nat) (fuel : Nat) (ts : Toks) : 
       let (b, r) ← parseId r
       pure (.binop name ty op (.glob a) (.glob b), r)
     | none =>
+      match wordAhead r with
+      | .fault => .error .IrParseException
+      | .yes => do
+        let (o, r) ← parseId r
+        let (b, r) ← parseId r
+        pure (.binop name ty (if o = "rol" then .rol else .ror) (.glob a) (.glob b), r)
+      | .no =>
       if a = "phi" then do
         let (ins, r) ← parsePhiIns fuel r
         pure (.phi name ty ins, r)
@@ -573,10 +593,6 @@ def parseAssignment (fparse : String → Option Nat) (fuel : Nat) (ts : Toks) : 
           | some b => pure (.const name ty (.fbits b), r)
           | none => .error .Unsupported
         | _ => .error .IrParseException
-      else if atKeyword "rol" r || atKeyword "ror" r then do
-        let (o, r) ← parseId r
-        let (b, r) ← parseId r
-        pure (.binop name ty (if o = "rol" then .rol else .ror) (.glob a) (.glob b), r)
       else .error .NotImplementedError
   | .int v => do
     let (_, r) ← next r
